@@ -53,6 +53,16 @@ def render(sc):
         for nd in nodes:
             if nd[0] == "i":
                 out.append(ind + subst(instrs[nd[1]], in_main))
+            elif nd[0] == "ifee":
+                out.append(ind + "if.true")
+                out += body(nd[1], ind + "  ", in_main)
+                out.append(ind + "else")
+                out.append(ind + "end")
+            elif nd[0] == "ifet":
+                out.append(ind + "if.true")
+                out.append(ind + "else")
+                out += body(nd[1], ind + "  ", in_main)
+                out.append(ind + "end")
             elif nd[0] == "if":
                 out.append(ind + "if.true")
                 out += body(nd[1], ind + "  ", in_main) or [ind + "  push.1"]
